@@ -36,6 +36,13 @@ FOREIGN = {
     'tape_recorder_recordings/zz/metadata/A/20260101/abc': b'{}',
     'tape_recorder_recordings/afull/x': b'x',
     'tape_recorder_recordings/abmetadata/x': b'x',
+    # names that only EXTEND a cassette's own folder names (no separator after "full" / "metadata")
+    'tape_recorder_recordings/full_export.bin': b'x',
+    'tape_recorder_recordings/metadata.json': b'{}',
+    'tape_recorder_recordings/a/full_export.bin': b'x',
+    'tape_recorder_recordings/a/metadata.json': b'{}',
+    'tape_recorder_recordings/a/b/fullstack/full/A/20260101/abc': b'x',
+    'tape_recorder_recordings/ab/metadata-service/metadata/A/20260101/abc': b'{}',
 }
 
 
